@@ -186,11 +186,11 @@ def _sumterms(ts):
 
 
 def run_config(c, col):
-    if c.get("group") == "class-wiring":
+    if c.get("group") in ("class-wiring", "loop-wiring"):
         from checks import wiring
 
         E.use_summaries(True)
-        return wiring.run_class(c, col)
+        return (wiring.run_class if c["group"] == "class-wiring" else wiring.run_loop)(c, col)
     if c["group"] == "swap":
         return _run_swap(c, col)
     if c["group"] == "orch":
@@ -694,10 +694,10 @@ def _real_pi(G, nal, F, T, Lmap):
 def replay(v):
     import math
 
-    if v["config"].get("group") == "class-wiring":
+    if v["config"].get("group") in ("class-wiring", "loop-wiring"):
         from checks import wiring
 
-        return wiring.replay_real(v, wiring.run_class)
+        return wiring.replay_real(v, wiring.run_class if v["config"]["group"] == "class-wiring" else wiring.run_loop)
     c = v["config"]
     m = v.get("model") or {}
     if c["group"] in ("swap", "orch"):
